@@ -1,6 +1,406 @@
-//! C16 — not built yet.
-use crate::ev::Tier;
-pub fn main(_tier: Tier, _replay: Option<serde_json::Value>) -> i32 {
-    eprintln!("C16: check not built yet");
-    2
+//! C16 — serialization round trips preserve keys, proofs and parameters.
+
+use dusk_bytes::Serializable;
+use dusk_plonk::prelude::*;
+use serde_json::json;
+
+use crate::c01::{sized, Shape};
+use crate::c05::Fam;
+use crate::c17::mp::{self, Desc};
+use crate::e1;
+use crate::ev::{Run, Tier};
+use crate::fe::*;
+use crate::prog::Prog;
+use crate::rng::ScriptedRng;
+
+struct Item {
+    name: String,
+    prog: Option<Prog>,
+    /// compile from this compressed description instead (handcrafted layouts)
+    compressed: Option<Vec<u8>>,
+}
+
+#[derive(Default)]
+struct Rep {
+    layout: u64,
+    constraints: usize,
+    prover_len: usize,
+    fails: Vec<(String, String)>,
+    checks: u64,
+}
+
+fn prove_bytes(p: &Prover, prog: &Prog) -> Result<(Vec<u8>, Vec<Fe>), String> {
+    let mut rng = ScriptedRng::base(seed(), 16);
+    match std::panic::catch_unwind(std::panic::AssertUnwindSafe(|| p.prove(&mut rng, prog))) {
+        Err(e) => Err(format!("panic: {}", crate::par::panic_msg(e))),
+        Ok(Err(e)) => Err(format!("{:?}", e)),
+        Ok(Ok((proof, pis))) => Ok((proof.to_bytes().to_vec(), pis)),
+    }
+}
+
+fn roundtrip(it: &Item, pp: &PublicParameters) -> Rep {
+    let mut rep = Rep::default();
+    let label: &[u8] = if it.name.len() % 2 == 0 { b"" } else { b"c16-label" };
+    let keys = match (&it.prog, &it.compressed) {
+        (_, Some(z)) => Compiler::compile_with_compressed(pp, label, z),
+        (Some(p), None) => Compiler::compile_with_circuit(pp, label, p),
+        _ => unreachable!(),
+    };
+    let (prover, verifier) = match keys {
+        Ok(k) => k,
+        Err(e) => {
+            rep.fails.push(("compile-failed".into(), format!("{:?}", e)));
+            return rep;
+        }
+    };
+    if let Some(p) = &it.prog {
+        if let Some(s) = p.last_snapshot() {
+            rep.layout = crate::m1::layout_key(&s);
+            rep.constraints = s.gates.len();
+        }
+    }
+    // ---- prover
+    let pb = prover.to_bytes();
+    rep.prover_len = pb.len();
+    rep.checks += 1;
+    if pb.len() != prover.serialized_size() {
+        rep.fails.push(("prover/serialized_size-differs".into(), format!("to_bytes().len() = {} but serialized_size() = {}", pb.len(), prover.serialized_size())));
+    }
+    let p2 = match std::panic::catch_unwind(|| Prover::try_from_bytes(&pb)) {
+        Err(e) => {
+            rep.fails.push(("prover/decode-panic".into(), crate::par::panic_msg(e)));
+            None
+        }
+        Ok(Err(e)) => {
+            rep.fails.push(("prover/decode-rejects-own-encoding".into(), format!("{:?}", e)));
+            None
+        }
+        Ok(Ok(p2)) => Some(p2),
+    };
+    if let Some(p2) = &p2 {
+        rep.checks += 1;
+        if p2.to_bytes() != pb {
+            rep.fails.push(("prover/reencoding-differs".into(), "decode(encode(p)).encode() != encode(p)".into()));
+        }
+    }
+    // ---- verifier
+    let vb = verifier.to_bytes();
+    rep.checks += 1;
+    if vb.len() != verifier.serialized_size() {
+        rep.fails.push(("verifier/serialized_size-differs".into(), format!("{} vs {}", vb.len(), verifier.serialized_size())));
+    }
+    let v2 = match std::panic::catch_unwind(|| Verifier::try_from_bytes(&vb)) {
+        Err(e) => {
+            rep.fails.push(("verifier/decode-panic".into(), crate::par::panic_msg(e)));
+            None
+        }
+        Ok(Err(e)) => {
+            rep.fails.push(("verifier/decode-rejects-own-encoding".into(), format!("{:?}", e)));
+            None
+        }
+        Ok(Ok(v2)) => Some(v2),
+    };
+    if let Some(v2) = &v2 {
+        rep.checks += 1;
+        if v2.to_bytes() != vb {
+            rep.fails.push(("verifier/reencoding-differs".into(), "decode(encode(v)).encode() != encode(v)".into()));
+        }
+    }
+    // ---- behaviour (needs an instance)
+    if let Some(prog) = &it.prog {
+        let a = prove_bytes(&prover, prog);
+        if let (Some(p2), Ok((proof_a, pis_a))) = (&p2, &a) {
+            rep.checks += 1;
+            match prove_bytes(p2, prog) {
+                Ok((proof_b, pis_b)) => {
+                    if proof_b != *proof_a || pis_b != *pis_a {
+                        rep.fails.push(("prover/decoded-proves-differently".into(), "same RNG script, different proof or public inputs".into()));
+                    }
+                }
+                Err(e) => rep.fails.push(("prover/decoded-fails-to-prove".into(), e)),
+            }
+        }
+        if let (Some(v2), Ok((proof_a, pis_a))) = (&v2, &a) {
+            // proof round trip
+            let mut arr = [0u8; Proof::SIZE];
+            arr.copy_from_slice(proof_a);
+            match Proof::from_bytes(&arr) {
+                Err(e) => rep.fails.push(("proof/decode-rejects-own-encoding".into(), format!("{:?}", e))),
+                Ok(pr) => {
+                    rep.checks += 1;
+                    if pr.to_bytes().to_vec() != *proof_a {
+                        rep.fails.push(("proof/reencoding-differs".into(), "".into()));
+                    }
+                    // decoded verifier accepts exactly what the original accepts:
+                    // honest proof, one flipped bit per proof field, a PI edit
+                    let mut presentations: Vec<(Vec<u8>, Vec<Fe>)> = vec![(proof_a.clone(), pis_a.clone())];
+                    for f in 0..26usize {
+                        let off = if f < 11 { f * 48 + 47 } else { 11 * 48 + (f - 11) * 32 };
+                        let mut b = proof_a.clone();
+                        b[off] ^= 1;
+                        presentations.push((b, pis_a.clone()));
+                    }
+                    if !pis_a.is_empty() {
+                        let mut pz = pis_a.clone();
+                        pz[0] += one();
+                        presentations.push((proof_a.clone(), pz));
+                        presentations.push((proof_a.clone(), pis_a[1..].to_vec()));
+                    }
+                    for (pbytes, pis) in presentations {
+                        let mut arr = [0u8; Proof::SIZE];
+                        arr.copy_from_slice(&pbytes);
+                        let Ok(pr) = Proof::from_bytes(&arr) else { continue };
+                        rep.checks += 1;
+                        let r1 = verifier.verify(&pr, &pis).is_ok();
+                        let r2 = v2.verify(&pr, &pis).is_ok();
+                        if r1 != r2 {
+                            rep.fails.push(("verifier/decoded-verdict-differs".into(), format!("original {} decoded {}", r1, r2)));
+                        }
+                    }
+                }
+            }
+        }
+        if let Err(e) = &a {
+            rep.fails.push(("prove-failed".into(), e.clone()));
+        }
+    }
+    rep
+}
+
+/// A compressed description whose multiplication selector is identically zero
+/// (so q_m is shorter than the other selector polynomials).
+fn no_mul_description() -> Vec<u8> {
+    let d = Desc {
+        hades: false,
+        pis: vec![],
+        witnesses: 3,
+        scalars: vec![],
+        // q_l = 1 (index 1), q_r = -1 (index 2), q_arith = 1
+        polys: vec![[0, 1, 2, 0, 0, 0, 1, 0, 0, 0, 0]],
+        cons: vec![[0, 0, 0, 0, 0], [0, 1, 1, 0, 0], [0, 2, 2, 0, 0], [0, 1, 1, 2, 2], [0, 0, 0, 1, 1]],
+    };
+    mp::deflate(&d.encode())
+}
+
+fn proof_canonicity(run: &mut Run, tier: Tier, pp: &PublicParameters) {
+    let progs = vec![sized(12, &Shape::Pi(vec![4, -1])), sized(20, &Shape::CustomLast(Fam::Range))];
+    let n = tier.pick(1usize, 2usize);
+    for prog in progs.iter().take(n) {
+        let (prover, _) = Compiler::compile_with_circuit(pp, b"canon", prog).expect("compile");
+        let (proof, _) = prove_bytes(&prover, prog).expect("prove");
+        let bits: Vec<usize> = (0..proof.len() * 8).collect();
+        let res = crate::par::par_map(&bits, |bit| {
+            let mut b = proof.clone();
+            b[bit / 8] ^= 1 << (bit % 8);
+            let mut arr = [0u8; Proof::SIZE];
+            arr.copy_from_slice(&b);
+            match std::panic::catch_unwind(|| Proof::from_bytes(&arr)) {
+                Err(_) => 3u8,
+                Ok(Err(_)) => 0,
+                Ok(Ok(p)) => {
+                    if p.to_bytes() == arr {
+                        1
+                    } else {
+                        2
+                    }
+                }
+            }
+        });
+        for (bit, r) in bits.iter().zip(res) {
+            run.transitions += 1;
+            run.evaluations += 1;
+            match r {
+                Ok(0) => run.outcome("proof-flip:undecodable"),
+                Ok(1) => {
+                    run.outcome("proof-flip:decodable-canonical");
+                    run.traces_validated += 1;
+                    run.nontrivial(fnv(format!("flip{}", bit).as_bytes()));
+                }
+                Ok(2) => {
+                    let field = if *bit / 8 < 11 * 48 { format!("commitment{}", bit / 8 / 48) } else { format!("evaluation{}", (bit / 8 - 11 * 48) / 32) };
+                    run.violation(&format!("proof/non-canonical-accepted/{}", field), &format!("Proof::from_bytes accepts a string (bit {} flipped) that re-encodes differently", bit), json!({"name": "proof-canonicity", "bit": bit}));
+                }
+                _ => run.violation("proof/decode-panic", &format!("Proof::from_bytes panicked with bit {} flipped", bit), json!({"name": "proof-canonicity", "bit": bit})),
+            }
+        }
+    }
+    // hand-built non-canonical encodings: scalar >= r, x >= p, infinity with junk
+    let prog = &progs[0];
+    let (prover, _) = Compiler::compile_with_circuit(pp, b"canon", prog).expect("compile");
+    let (proof, _) = prove_bytes(&prover, prog).expect("prove");
+    let r_bytes = {
+        let m = U320::modulus();
+        let mut b = [0u8; 32];
+        for i in 0..4 {
+            b[i * 8..i * 8 + 8].copy_from_slice(&m.0[i].to_le_bytes());
+        }
+        b
+    };
+    let mut variants: Vec<(String, Vec<u8>)> = vec![];
+    for e in 0..15usize {
+        let off = 11 * 48 + e * 32;
+        let mut b = proof.clone();
+        // value + r (non-canonical alias) when it still fits 256 bits
+        let mut carry = 0u16;
+        let mut ok = true;
+        for i in 0..32 {
+            let s = b[off + i] as u16 + r_bytes[i] as u16 + carry;
+            b[off + i] = s as u8;
+            carry = s >> 8;
+        }
+        if carry != 0 {
+            ok = false;
+        }
+        if ok {
+            variants.push((format!("evaluation{}+r", e), b));
+        }
+        let mut b = proof.clone();
+        b[off..off + 32].copy_from_slice(&r_bytes);
+        variants.push((format!("evaluation{}=r", e), b));
+    }
+    for c in 0..11usize {
+        let mut b = proof.clone();
+        // infinity flag with junk x bits
+        b[c * 48] |= 0x40;
+        variants.push((format!("commitment{}/infinity+junk", c), b));
+        let mut b = proof.clone();
+        b[c * 48] &= 0x7f; // compression flag cleared
+        variants.push((format!("commitment{}/uncompressed-flag", c), b));
+    }
+    for (name, b) in variants {
+        run.transitions += 1;
+        run.evaluations += 1;
+        let mut arr = [0u8; Proof::SIZE];
+        arr.copy_from_slice(&b);
+        match std::panic::catch_unwind(|| Proof::from_bytes(&arr)) {
+            Err(_) => run.violation("proof/decode-panic", &format!("Proof::from_bytes panicked on {}", name), json!({"name": "proof-canonicity", "variant": name})),
+            Ok(Err(_)) => run.outcome("proof-handbuilt:rejected"),
+            Ok(Ok(p)) => {
+                if p.to_bytes() != arr {
+                    run.violation(&format!("proof/non-canonical-accepted/{}", name.split('/').next().unwrap_or("").trim_end_matches(|c: char| c.is_ascii_digit() || c == '+' || c == '=' || c == 'r')), &format!("Proof::from_bytes accepts non-canonical {}", name), json!({"name": "proof-canonicity", "variant": name}));
+                } else {
+                    run.outcome("proof-handbuilt:accepted-canonical");
+                }
+            }
+        }
+    }
+}
+
+fn parameters(run: &mut Run, tier: Tier) {
+    let degrees: Vec<usize> = tier.pick(vec![1, 2, 7, 16, 33], vec![1, 2, 3, 7, 8, 16, 17, 33, 64, 130]);
+    for d in degrees {
+        let mut rng = crate::rng::SeedRng(Rho::new(seed(), 1600 + d as u64));
+        let pp = PublicParameters::setup(d, &mut rng).expect("setup");
+        run.transitions += 1;
+        run.evaluations += 1;
+        run.traces_validated += 1;
+        run.nontrivial(fnv(format!("pp{}", d).as_bytes()));
+        let case = json!({"name": format!("pp/degree{}", d)});
+        let vb = pp.to_var_bytes();
+        match std::panic::catch_unwind(|| PublicParameters::from_slice(&vb)) {
+            Err(e) => run.violation("pp/decode-panic", &crate::par::panic_msg(e), case.clone()),
+            Ok(Err(e)) => run.violation("pp/decode-rejects-own-encoding", &format!("degree {}: {:?}", d, e), case.clone()),
+            Ok(Ok(p2)) => {
+                if p2.to_var_bytes() != vb || p2.max_degree() != pp.max_degree() {
+                    run.violation("pp/reencoding-differs", &format!("degree {}", d), case.clone());
+                } else {
+                    run.outcome("pp:roundtrip-identical");
+                }
+                let rb = pp.to_raw_var_bytes();
+                let p3 = unsafe { PublicParameters::from_slice_unchecked(&rb) };
+                if p3.to_raw_var_bytes() != rb || p3.to_var_bytes() != vb {
+                    run.violation("pp/raw-reencoding-differs", &format!("degree {}", d), case.clone());
+                } else {
+                    run.outcome("pp:raw-roundtrip-identical");
+                }
+                // identical behaviour: the decoded parameters compile to the same keys
+                if d >= 16 {
+                    let prog = sized(9, &Shape::Pi(vec![4]));
+                    let k1 = Compiler::compile_with_circuit(&pp, b"pp", &prog).map(|(p, v)| (p.to_bytes(), v.to_bytes()));
+                    let k2 = Compiler::compile_with_circuit(&p2, b"pp", &prog).map(|(p, v)| (p.to_bytes(), v.to_bytes()));
+                    let k3 = Compiler::compile_with_circuit(&p3, b"pp", &prog).map(|(p, v)| (p.to_bytes(), v.to_bytes()));
+                    if k1 != k2 || k1 != k3 {
+                        run.violation("pp/decoded-behaves-differently", &format!("degree {}: keys compiled from decoded parameters differ", d), case);
+                    } else {
+                        run.outcome("pp:same-keys");
+                    }
+                }
+            }
+        }
+    }
+}
+
+pub fn main(tier: Tier, replay: Option<serde_json::Value>) -> i32 {
+    let mut run = Run::new("C16", tier, "model_checking");
+    run.rule = "every E1 program state, size-sweep circuits and handcrafted layouts whose selector polynomials have different lengths: Prover / Verifier encode -> decode -> encode identical, serialized_size exact, the decoded prover produces the identical proof from the same RNG script, the decoded verifier returns the same verdict on the honest proof, one flipped bit per proof field and PI edits; Proof round trip; proof canonicity over all 8064 single-bit flips and hand-built non-canonical encodings (decodable => re-encodes to itself); PublicParameters (checked and raw forms) for several degrees: identical bytes and identical compiled keys".into();
+    if replay.is_some() {
+        run.set_replay_mode();
+    }
+    let replay_name: Option<String> = replay.as_ref().and_then(|r| r["case"]["name"].as_str().map(|s| s.to_string()));
+    let full = crate::setup::pp((1usize << 13) + 64);
+    let alpha = e1::alphabet();
+    let mut items: Vec<Item> = vec![];
+    items.push(Item { name: "handcrafted/no-multiplication-gate".into(), prog: None, compressed: Some(no_mul_description()) });
+    for k in 3..=tier.pick(7usize, 10usize) {
+        for c in [(1usize << k) - 7, (1 << k) - 6, (1 << k) - 1, 1 << k, (1 << k) + 1] {
+            if c < 6 {
+                continue;
+            }
+            items.push(Item { name: format!("sized/c{}/pi", c), prog: Some(sized(c, &Shape::Pi(vec![4, -1]))), compressed: None });
+            items.push(Item { name: format!("sized/c{}/custom-last", c), prog: Some(sized(c, &Shape::CustomLast(Fam::Xor))), compressed: None });
+        }
+    }
+    let progs = match tier {
+        Tier::Quick => {
+            let mut v = e1::programs(&alpha, 2, 0, 2);
+            v.retain(|p| p.ops.len() == 1 || (p.ops[0] * 5 + p.ops[1]) % 6 == 0);
+            v
+        }
+        Tier::Thorough => e1::programs(&alpha, 2, 0, 8),
+    };
+    for p in &progs {
+        items.push(Item { name: format!("program/{}", p.name), prog: Some(e1::program_prog(&alpha, p)), compressed: None });
+    }
+    if let Some(n) = &replay_name {
+        items.retain(|i| &i.name == n);
+    }
+    run.bound("circuits", json!(items.len()));
+    let outs = crate::par::par_map(&items, |it| roundtrip(it, &full));
+    let mut layouts = std::collections::HashSet::new();
+    for (it, o) in items.iter().zip(outs) {
+        run.transitions += 1;
+        run.evaluations += 1;
+        match o {
+            Err(p) => run.machinery(format!("harness panic {}: {}", it.name, p)),
+            Ok(rep) => {
+                layouts.insert(rep.layout);
+                run.traces_validated += rep.checks;
+                run.nontrivial(fnv(it.name.as_bytes()));
+                if run.samples.len() < 6 {
+                    run.sample(json!({"name": it.name, "constraints": rep.constraints, "prover_bytes": rep.prover_len, "checks": rep.checks}));
+                }
+                if rep.fails.is_empty() {
+                    run.outcome("circuit:all-roundtrips-identical");
+                }
+                let class = it.name.split('/').next().unwrap_or("").to_string();
+                for (sig, what) in rep.fails {
+                    run.violation(&format!("{}/{}", class, sig), &format!("{}: {} {}", it.name, sig, what), json!({"name": it.name}));
+                }
+            }
+        }
+    }
+    run.states = layouts.len() as u64;
+    if replay_name.is_none() || replay_name.as_deref() == Some("proof-canonicity") {
+        proof_canonicity(&mut run, tier, &full);
+    }
+    if replay_name.is_none() || replay_name.as_deref().map(|n| n.starts_with("pp/")).unwrap_or(false) {
+        parameters(&mut run, tier);
+    }
+    if replay_name.is_none() {
+        run.gate("round trips ran", run.count("circuit:all-roundtrips-identical") > 50);
+        run.gate("decodable flips seen", run.count("proof-flip:decodable-canonical") > 100);
+        run.gate("undecodable flips seen", run.count("proof-flip:undecodable") > 100);
+    }
+    run.assumptions = vec!["behavioural equality is observed on the listed presentations (honest proof, one flipped bit per field, PI edits), not on all proofs".into()];
+    run.finish()
 }
